@@ -1,5 +1,70 @@
+(* Property C07 -- an EQL query translated to SQL selects the same entities as in-memory evaluation.
+   Only statements, each closed by [exact].  Model: Orm/EqlToSql.v (translator) over Orm/SqlAlg.v (what the
+   statement means on SQLite -- compared, not proved); Spec: Orm/EqlToSqlSpec.v ([answers]).  Level: partial. *)
 From Coq Require Import List ZArith Bool.
-From Krrood Require Import Base.Sx Orm.EqlToSqlSpec Orm.SqlAlg Orm.EqlToSql.
+From Krrood Require Import Base.Sx Orm.EqlToSqlSpec Orm.SqlAlg Orm.EqlToSql Orm.EqlToSqlProofs.
 Import ListNotations.
 Open Scope Z_scope.
-Example C07_nonvacuous : True. Proof. exact I. Qed.
+
+(* for every schema, every query accepted by the translator, every world (database content): inside F07 the rows the
+   statement returns are the rows in-memory evaluation returns -- same keys, same multiplicities, same order *)
+Theorem C07_agree : forall sc q w s,
+  translate sc q = TOk s -> f07 sc q w = true -> sem_res s (encode sc w) = answers sc q w.
+Proof. exact agree. Qed.
+
+(* the(...): .one() fails exactly when the(...) fails, in the same way, and otherwise returns the same entity *)
+Theorem C07_the : forall sc q w s,
+  translate sc q = TOk s -> f07 sc q w = true -> one_of (sem_res s (encode sc w)) = one_of (answers sc q w).
+Proof. exact the_agree. Qed.
+
+(* a query of the fragment (with at least one instance of the selected type) is accepted, hence answered as in memory *)
+Theorem C07_accepts : forall sc q w v root,
+  f07 sc q w = true -> q_vars q = [(v, root)] -> instances sc w root <> [] -> exists s, translate sc q = TOk s.
+Proof. exact f07_accepted. Qed.
+
+(* reject or agree: a condition containing a node kind the translator does not know (not_) never yields a statement *)
+Theorem C07_reject_or_agree : forall sc q c,
+  q_cond q = Some c -> has_not c = true -> forall s, translate sc q <> TOk s.
+Proof. exact not_never_answered. Qed.
+
+(* outside F07 the faithful model does NOT meet the property; one witness per excluded class *)
+Theorem C07_refuted_othervar :   (* a second variable is translated as the selected one *)
+  model_res Wit.sc Wit.q_othervar Wit.w = Some (Ok [1]) /\ answers Wit.sc Wit.q_othervar Wit.w = Ok [1; 2].
+Proof. exact refuted_othervar. Qed.
+Theorem C07_refuted_null :       (* None: NULL comparison drops the row; Python: None != 1 holds, None < 0 raises *)
+  (model_res Wit.sc Wit.q_null_ne Wit.w = Some (Ok []) /\ answers Wit.sc Wit.q_null_ne Wit.w = Ok [3]) /\
+  (model_res Wit.sc Wit.q_null_lt Wit.w = Some (Ok []) /\ answers Wit.sc Wit.q_null_lt Wit.w = Err TypeErr).
+Proof. exact refuted_null. Qed.
+Theorem C07_refuted_fk_literal : (* a relationship-valued operand is its foreign key *)
+  model_res Wit.sc Wit.q_fk Wit.w = Some (Ok [6]) /\ answers Wit.sc Wit.q_fk Wit.w = Ok [].
+Proof. exact refuted_fk_literal. Qed.
+Theorem C07_refuted_like :       (* contains(column, str) becomes LIKE: case-insensitive, % and _ are wildcards *)
+  model_res Wit.sc Wit.q_like Wit.w = Some (Ok [7]) /\ answers Wit.sc Wit.q_like Wit.w = Ok [].
+Proof. exact refuted_like. Qed.
+Theorem C07_refuted_varoperand : (* a bare variable operand is handed to the driver as a parameter: execution fails *)
+  model_res Wit.sc Wit.q_varop Wit.w = Some (Err TypeErr) /\ answers Wit.sc Wit.q_varop Wit.w = Ok [5; 6].
+Proof. exact refuted_varoperand. Qed.
+Theorem C07_refuted_noneorder :  (* <,<=,>,>= against None: SQLAlchemy's ArgumentError escapes, not an EQLTranslationError *)
+  translate Wit.sc Wit.q_noneorder = TCrash.
+Proof. exact refuted_noneorder. Qed.
+Theorem C07_refuted_selfjoin :   (* attribute-equality join of two variables of the selected type: statement cannot be compiled *)
+  model_res Wit.sc Wit.q_selfjoin Wit.w = Some (Err TypeErr) /\ answers Wit.sc Wit.q_selfjoin Wit.w = Ok [5; 6].
+Proof. exact refuted_selfjoin. Qed.
+
+(* non-vacuity: a query with two relationship paths, and/or and an attribute-attribute comparison is in F07, accepted, non-trivial *)
+Example C07_nonvacuous :
+  f07 Wit.sc Wit.q_ok Wit.w_ok = true /\ model_res Wit.sc Wit.q_ok Wit.w_ok = Some (Ok [5]) /\
+  answers Wit.sc Wit.q_ok Wit.w_ok = Ok [5].
+Proof. exact nonvacuous. Qed.
+
+Print Assumptions C07_agree.
+Print Assumptions C07_the.
+Print Assumptions C07_accepts.
+Print Assumptions C07_reject_or_agree.
+Print Assumptions C07_refuted_othervar.
+Print Assumptions C07_refuted_null.
+Print Assumptions C07_refuted_fk_literal.
+Print Assumptions C07_refuted_like.
+Print Assumptions C07_refuted_varoperand.
+Print Assumptions C07_refuted_noneorder.
+Print Assumptions C07_refuted_selfjoin.
